@@ -789,3 +789,30 @@ def c01_cli(ctx, res, limit):
                         {"source": e["source"][-800:], "compile": c.brief(), "destination_pre_existed": ix % 2 == 0,
                          "file_hex": None if data is None else data[:64].hex(), "expected_hex": want[:64].hex()})
     res.require(["l2:compile"], "L2")
+
+
+# ------------------------------------------------------------------ valgrind samples (thorough)
+
+def valgrind_samples(ctx, res, prop):
+    """CLI invocations under memcheck for code Miri cannot reach (main.rs paths, file I/O)."""
+    import layers
+    cp = corpus(ctx)
+    d = _dir(ctx, "vg")
+    inv = []
+    if prop == "C05":
+        for ix, t in enumerate(cp["fuzz"][:40]):
+            _write(os.path.join(d, "v%d.asm" % ix), t.encode("utf-8"))
+            inv.append((["check", "v%d.asm" % ix] + (["-f", "stack"] if ix % 2 else []), b"", d))
+    elif prop == "C06":
+        for ix, e in enumerate(cp["structured"][:15]):
+            _write(os.path.join(d, "v%d.asm" % ix), e["source"])
+            inv.append((["compile", "v%d.asm" % ix, "v%d.lc3" % ix] + feat(e), b"", d))
+        for ix, data in enumerate([b"", b"\x30", b"\x30\x00", b"\x30\x00\xf0\x25", b"\xff\xff\xf0\x25", b"\xff\xfe\xf0\x25\x00"]):
+            _write(os.path.join(d, "w%d.obj" % ix), data)
+            inv.append((["run", "w%d.obj" % ix, "--minimal"], b"", d))
+    elif prop == "C09":
+        for ix, e in enumerate([e for e in cp["structured"] if not e["input"]][:20]):
+            _write(os.path.join(d, "v%d.asm" % ix), e["source"])
+            inv.append((["debug", "v%d.asm" % ix, "--minimal", "--command", "step;si 3;registers;break add ^1;continue;assembly;print r0;eval add r1 r1 #1;reset;continue;quit"] + feat(e), b"", d))
+    layers.valgrind(ctx, res, prop, inv)
+    res.require(["valgrind_runs"], "L3")
